@@ -71,6 +71,7 @@ Step(e) ==
     [] e.a = "SendE2E"       -> SendE2E(e.o, e.cid)
     [] e.a = "SendTest"      -> SendTest(e.o, e.cid)
     [] e.a = "RPForge"       -> RPForge(e.rp, e.cid)
+    [] e.a = "OutsideNested" -> OutsideNested(e.x, e.cid, e.target)
     [] e.a = "TransportsReady" -> TransportsReady(e.n, e.cid)
     [] e.a = "Transport4Ready" -> Transport4Ready(e.n, e.cid)
     [] e.a = "Deliver"       -> \E d \in net : d.id = e.id /\ Deliver(d)
